@@ -128,8 +128,9 @@ def expectation(case):
     # gene is not in the query (the code checks every list it keeps)
     may_fail = any(g not in set(R) for g in listed)
     if m == 0 and any(len(s) == 0 for s in spec.values()):
-        # min_markers = 0: "fewer than the minimum" never holds; a consulted
-        # non-empty list without overlap is still refused by the cache writer
+        # min_markers = 0: "fewer than the minimum" never holds, so the
+        # property does not demand an error for ONE consulted parent left
+        # without markers; the code (since fix 78f9fd9) refuses it: allowed
         may_fail = True
     return {'must_fail': must_fail, 'may_fail': may_fail, 'spec': spec,
             'consulted': cons}
